@@ -817,4 +817,3 @@ Proof.
   - intros S HS TS. destruct (TT S HS TS) as (Z0 & A & B & _). split; [exact Z0|split; assumption].
   - exact NN.
 Qed.
-Print Assumptions final_graph_shape.
